@@ -859,8 +859,9 @@ class VM:
                 else:
                     # Create prototype object for the function
                     # In JavaScript, every function has a prototype property
-                    prototype = JSObject()
+                    prototype = JSObject(self._object_prototype())
                     prototype.set("constructor", js_func)
+                    prototype.hide("constructor")
                     js_func._prototype = prototype
 
                 # Capture closure cells for free variables
